@@ -74,7 +74,23 @@ _STUBS = None
 
 def _build():
     grpc = _mod("grpc", insecure_channel=lambda target, *a, **k: _Channel(target))
-    grpc.aio = _mod("grpc.aio")
+    class _AioServer:
+        def add_insecure_port(self, addr):
+            return 0
+
+        async def start(self):
+            pass
+
+        async def stop(self, grace=None):
+            pass
+
+        async def wait_for_termination(self, timeout=None):
+            import asyncio
+
+            await asyncio.Event().wait()
+
+    grpc.aio = _mod("grpc.aio", Server=_AioServer, server=lambda *a, **k: _AioServer())
+    wandb = _mod("wandb", init=lambda *a, **k: None, log=lambda *a, **k: None, finish=lambda *a, **k: None)
     tqdm = _mod("tqdm", tqdm=_Tqdm)
     tqdm.auto = _mod("tqdm.auto", tqdm=_Tqdm)
     pb2 = _mod("tak.proto.analysis_pb2", EvaluateRequest=EvaluateRequest, EvaluateResponse=EvaluateResponse)
@@ -88,6 +104,7 @@ def _build():
         "grpc": grpc,
         "grpc.aio": grpc.aio,
         "tqdm": tqdm,
+        "wandb": wandb,
         "tqdm.auto": tqdm.auto,
         "tak.proto.analysis_pb2": pb2,
         "tak.proto.analysis_pb2_grpc": pb2g,
@@ -99,7 +116,7 @@ class _Finder(importlib.abc.MetaPathFinder, importlib.abc.Loader):
 
     def find_spec(self, name, path=None, target=None):
         if name in _STUBS:
-            if name in ("grpc", "tqdm", "grpc.aio", "tqdm.auto"):
+            if name in ("grpc", "tqdm", "grpc.aio", "tqdm.auto", "wandb"):
                 # prefer a real installation if there is one
                 for f in sys.meta_path:
                     if f is self:
